@@ -72,6 +72,10 @@ def _compile(job):
     """job: {"src": str | {module: str}, "options": dict} -> {"result": ..., "events": [...]}"""
     from stationeers_pytrapic.compiler import CompileOptions, compile_code
 
+    if "seq" in job:        # several compilations one after the other in ONE process: [{"src", "options"}, ...] -> {"seq": [results]}
+        return {"seq": [_compile(j) for j in job["seq"]]}
+    if "defaults" in job:   # the declared defaults of the option fields (not an instance anybody could have changed)
+        return {"defaults": {k: bool(f.default) for k, f in CompileOptions.__dataclass_fields__.items()}}
     try:
         from stationeers_pytrapic import _verif
     except Exception:
@@ -80,8 +84,11 @@ def _compile(job):
         _verif.reset()
     out = {"raised": None}
     try:
-        o = CompileOptions(**job["options"])
-        res = compile_code(job["src"], o)
+        if job["options"] is None:          # the options argument omitted
+            res = compile_code(job["src"])
+        else:
+            o = CompileOptions(**job["options"])
+            res = compile_code(job["src"], o)
         out["result"] = res
     except BaseException as e:  # the property (C10) says this never happens
         out["result"] = None
